@@ -72,6 +72,10 @@ class Container:
     def mutants(self, job, b, rng, full):
         return []
 
+    def stored(self, job):
+        """(audio bytes each write call stores, audio bytes the codec stores at close)"""
+        return [p * job.bw for p in job.parts], 0
+
     def model_cfg(self, job):
         return "codec=%02x endian=%d ch=%d sr=%d" % (job.f.codec, job.f.endian >> 28, job.ch, job.sr)
 
@@ -122,14 +126,17 @@ class Job:
 
     def model_line(self):
         ops = [] if self.ext is not None else ["d"]
+        per_call, at_close = self.ct.stored(self)
         for i, p in enumerate(self.parts):
             if p > 0:
-                ops.append(("W" if self.auto else "w") + str(p * self.bw))
+                ops.append(("W" if self.auto else "w") + str(per_call[i]))
             if i == 0:
                 if not self.auto:
                     ops.append("u")
                 if self.ext is None:
                     ops.append("d")
+        if at_close:
+            ops.append("w%d" % at_close)          # the codec flushes its last block before the container closes
         ops += ["c", "d"]
         nm = " name=%s" % self.fname.hex() if self.ext is not None else ""
         return "session %s%s stale=%d ops=%s" % (self.ct.model_cfg(self), nm, self.stale, ";".join(ops))
@@ -423,7 +430,70 @@ class Ircam(Container):
         return out
 
 
-CONTAINERS = [Avr(), Ircam()]
+# ---------------------------------------------------------------- PAF
+
+class Paf(Container):
+    name, major = "paf", 0x05
+    codecs = (0x01, 0x02, 0x03)
+    channels = (1, 2, 3, 6)
+    lengths = (0, 1, 2, 3, 5, 9, 10, 11, 20, 4097)
+
+    def little(self, f):
+        return f.endian in (FM.LE, FM.CPU)
+
+    def expected_word(self, f):
+        return (0x10000000 if self.little(f) else 0x20000000) | (self.major << 16) | f.codec
+
+    def stored(self, job):
+        if job.f.codec != 0x03:
+            return [p * job.bw for p in job.parts], 0
+        out, done, tot = [], 0, 0
+        for p in job.parts:
+            tot += p
+            out.append((tot // 10 - done) * 32 * job.ch)
+            done = tot // 10
+        return out, (32 * job.ch if tot % 10 else 0)
+
+    def frames_ok(self, job, fr):
+        if job.f.codec == 0x03:
+            return fr == 10 * ((job.n + 9) // 10)          # B = 10: N <= F < N + 10, whole blocks
+        return fr == job.n
+
+    def size_fields(self, job, final, fr):
+        per_call, at_close = self.stored(job)
+        want = 2048 + sum(per_call) + at_close
+        if len(final) != want:
+            return ["file length %d, header 2048 + %d audio bytes expected" % (len(final), want - 2048)]
+        return []
+
+    def hdr_end(self, b):
+        return 2048
+
+    def mutants(self, job, b, rng, full):
+        out = truncations(b, 2048, rng, full, always=(12, 24, 27, 28, 2047, 2048))
+        pk = "<I" if b[:4] == b"fap " else ">I"
+        other = ">I" if pk == "<I" else "<I"
+        for v in (0, 1, 2, 0x01000000, 0xFFFFFFFF):
+            out.append(("version=%d" % v, put(b, 4, struct.pack(pk, v))))
+            out.append(("endianness=%d" % v, put(b, 8, struct.pack(pk, v))))
+        for v in (0, 1, 2, 3, 4, 0x02000000, 0xFFFFFFFF):
+            out.append(("format=%d" % v, put(b, 16, struct.pack(pk, v))))
+        for v in (0, 1, 2, 3, 1024, 1025, 0x7FFFFFFF, 0x80000000, 0xFFFFFFFF, 0x01000000):
+            out.append(("ch=%d" % v, put(b, 20, struct.pack(pk, v))))
+        for v in (0, 1, 0x7FFFFFFF, 0x80000000, 0xFFFFFFFF, rng.randrange(2 ** 32)):
+            out.append(("sr=%d" % v, put(b, 12, struct.pack(pk, v))))
+            out.append(("source=%d" % v, put(b, 24, struct.pack(pk, v))))
+        out.append(("marker-swapped", (b" paf" if b[:4] == b"fap " else b"fap ") + b[4:]))
+        out.append(("fields-swapped", b[:4] + b"".join(struct.pack(other, struct.unpack(pk, b[o:o + 4])[0]) for o in range(4, 28, 4)) + b[28:]))
+        out.append(("marker-PAF", b" PAF" + b[4:]))
+        for k in (1, 2, 31, 32, 33, 63, 64, 65, 96, 97):
+            out.append(("append-%d" % k, b + bytes(range(k))))
+        if len(b) > 2048 + 3:
+            out.append(("cut-3", b[:-3]))
+        return out
+
+
+CONTAINERS = [Avr(), Ircam(), Paf()]
 
 
 def run(ctx, found=False):
